@@ -135,7 +135,8 @@ Theorem c16_split_join : forall sep l, l <> [] -> Forall (fun x => mem_N sep x =
 Proof. exact split_join. Qed.
 
 (** * Lazy loading *)
-(** For every file (list of blocks) in which no class name occurs twice and every block has data, for
+(** [via] = how _parse_block replaces the stored base names ([lazy_via_get_ent] read from the source).
+    For every file (list of blocks) in which no class name occurs twice and every block has data, for
     every decoding function that yields one definition per class name, and for EVERY sequence of
     engine_def() queries (any order, any repetitions) on a fresh database, the answers are exactly the
     definitions obtained by decoding the whole database. *)
@@ -146,12 +147,90 @@ Theorem c16_lazy_equals_eager :
   (forall cs data, List.length (decode cs data) = List.length cs) ->
   forall (ent_bases : ent -> list name) (is_empty : bytes -> bool) (empty_bytes : bytes),
   is_empty empty_bytes = true ->
-  forall B : list (block name bytes),
+  forall (via : bool) (B : list (block name bytes)),
   NoDup (flat_map fst B) -> Forall (fun b => is_empty (snd b) = false) B ->
   forall f g qs,
-  fst (run_queries name ent bytes name_eqb decode ent_bases is_empty empty_bytes (S f) (init name ent bytes B) qs)
-  = map (eager name ent bytes name_eqb decode ent_bases is_empty empty_bytes B g) qs.
+  fst (run_queries name ent bytes name_eqb decode ent_bases is_empty empty_bytes via (S f) (init name ent bytes B) qs)
+  = map (eager name ent bytes name_eqb decode ent_bases is_empty empty_bytes via B g) qs.
 Proof. exact lazy_equals_eager. Qed.
+
+(** The same including the bases: when _parse_block resolves base names through get_ent ([via = true]) and the
+    fuel covers the number of blocks, every answer of every query sequence carries, for each stored base name,
+    exactly the definition of that class in the file — alias chains across blocks included — and that is
+    also what a look-up in the completely loaded database gives. *)
+Theorem c16_lazy_equals_eager_with_bases :
+  forall (name ent bytes : Type) (name_eqb : name -> name -> bool),
+  (forall a b, name_eqb a b = true <-> a = b) ->
+  forall (decode : list name -> bytes -> list ent),
+  (forall cs data, List.length (decode cs data) = List.length cs) ->
+  forall (ent_bases : ent -> list name) (is_empty : bytes -> bool) (empty_bytes : bytes),
+  is_empty empty_bytes = true ->
+  forall (via : bool) (B : list (block name bytes)),
+  NoDup (flat_map fst B) -> Forall (fun b => is_empty (snd b) = false) B ->
+  via = true -> forall f g qs, (List.length B <= f)%nat -> (List.length B <= g)%nat ->
+  fst (run_full name ent bytes name_eqb decode ent_bases is_empty empty_bytes via f (init name ent bytes B) qs)
+  = map (eager_full name ent bytes name_eqb decode ent_bases is_empty empty_bytes via B g) qs.
+Proof. exact lazy_full_equals_eager. Qed.
+
+Theorem c16_eager_with_bases_is_file_content :
+  forall (name ent bytes : Type) (name_eqb : name -> name -> bool),
+  (forall a b, name_eqb a b = true <-> a = b) ->
+  forall (decode : list name -> bytes -> list ent),
+  (forall cs data, List.length (decode cs data) = List.length cs) ->
+  forall (ent_bases : ent -> list name) (is_empty : bytes -> bool) (empty_bytes : bytes),
+  is_empty empty_bytes = true ->
+  forall (via : bool) (B : list (block name bytes)),
+  NoDup (flat_map fst B) -> Forall (fun b => is_empty (snd b) = false) B ->
+  via = true -> forall f c, (List.length B <= f)%nat ->
+  eager_full name ent bytes name_eqb decode ent_bases is_empty empty_bytes via B f c
+  = full_spec name ent bytes name_eqb decode ent_bases B c.
+Proof. exact eager_full_correct. Qed.
+
+(** if every stored base name is a class of the file, no base of any answer is left as a bare name *)
+Theorem c16_lazy_bases_all_resolved :
+  forall (name ent bytes : Type) (name_eqb : name -> name -> bool),
+  (forall a b, name_eqb a b = true <-> a = b) ->
+  forall (decode : list name -> bytes -> list ent),
+  (forall cs data, List.length (decode cs data) = List.length cs) ->
+  forall (ent_bases : ent -> list name) (is_empty : bytes -> bool) (empty_bytes : bytes),
+  is_empty empty_bytes = true ->
+  forall (via : bool) (B : list (block name bytes)),
+  NoDup (flat_map fst B) -> Forall (fun b => is_empty (snd b) = false) B ->
+  via = true -> forall f qs, (List.length B <= f)%nat ->
+  (forall c e b, spec name ent bytes name_eqb decode B c = Some e -> In b (ent_bases e) ->
+                 spec name ent bytes name_eqb decode B b <> None) ->
+  Forall (fun a => match a with
+                   | Some (e, rb) => List.length rb = List.length (ent_bases e) /\ Forall (fun x => x <> None) rb
+                   | None => True end)
+         (fst (run_full name ent bytes name_eqb decode ent_bases is_empty empty_bytes via f (init name ent bytes B) qs)).
+Proof. exact lazy_bases_all_resolved. Qed.
+
+(** Non-vacuity and refutation on one concrete file with a CROSS-BLOCK alias chain: block 0 holds class 1
+    (alias of 2), block 1 holds class 2 (alias of 3) and class 4, block 2 holds class 3.  Definitions are
+    (class, stored base names). *)
+Definition xb_ent : Type := (N * list N)%type.
+Definition xb_bases (c : N) : list N := match c with 1 => [2] | 2 => [3] | _ => [] end.
+Definition xb_decode (cs : list N) (data : N) : list xb_ent := map (fun c => (c, xb_bases c)) cs.
+Definition xb_file : list (block N N) := [([1], 10); ([2; 4], 11); ([3], 12)].
+Definition xb_run (via : bool) (qs : list N) : list (option (xb_ent * list (option xb_ent))) :=
+  fst (run_full N xb_ent N N.eqb xb_decode (fun e => snd e) (N.eqb 0) 0 via 3 (init N xb_ent N xb_file) qs).
+Example c16_cross_block_alias_resolved :
+  xb_run true [1; 4; 2; 1] = [Some ((1, [2]), [Some (2, [3])]); Some ((4, []), []); Some ((2, [3]), [Some (3, [])]);
+                              Some ((1, [2]), [Some (2, [3])])]
+  /\ NoDup (flat_map fst xb_file) /\ Forall (fun b => N.eqb 0 (snd b) = false) xb_file.
+Proof. split; [vm_compute; reflexivity|]. split; [repeat constructor; cbn; intuition discriminate|repeat constructor]. Qed.
+(** a look-up in `ent_map` that only succeeds for decoded entries (instead of get_ent) leaves the base of class 1
+    as a bare name when class 1 is asked for first — and differently when class 2 was asked for before: the
+    answer depends on the query order *)
+Example c16_map_lookup_refuted :
+  xb_run false [1] = [Some ((1, [2]), [None])]
+  /\ xb_run false [2; 1] = [Some ((2, [3]), [None]); Some ((1, [2]), [Some (2, [3])])].
+Proof. split; vm_compute; reflexivity. Qed.
+Definition map_lookup_breaks : bool :=
+  match xb_run false [1], xb_run true [1] with
+  | [Some (_, [None])], [Some (_, [Some _])] => true
+  | _, _ => false
+  end.
 
 (** and each answer is the entry at the class's position in its block *)
 Theorem c16_eager_is_file_content :
@@ -161,18 +240,19 @@ Theorem c16_eager_is_file_content :
   (forall cs data, List.length (decode cs data) = List.length cs) ->
   forall (ent_bases : ent -> list name) (is_empty : bytes -> bool) (empty_bytes : bytes),
   is_empty empty_bytes = true ->
-  forall B : list (block name bytes),
+  forall (via : bool) (B : list (block name bytes)),
   NoDup (flat_map fst B) -> Forall (fun b => is_empty (snd b) = false) B ->
-  forall f c, eager name ent bytes name_eqb decode ent_bases is_empty empty_bytes B f c
+  forall f c, eager name ent bytes name_eqb decode ent_bases is_empty empty_bytes via B f c
               = spec name ent bytes name_eqb decode B c.
 Proof. exact eager_correct. Qed.
 
-(** the recursive lookups of alias bases never run deeper than the number of blocks *)
+(** the recursive lookups of alias bases never run deeper than the number of blocks (a block is marked as
+    decoded BEFORE its bases are looked up: [lazy_mark_before_resolve]) *)
 Theorem c16_base_lookups_terminate :
   forall (name ent bytes : Type) (name_eqb : name -> name -> bool)
          (decode : list name -> bytes -> list ent) (ent_bases : ent -> list name)
          (is_empty : bytes -> bool) (empty_bytes : bytes),
   is_empty empty_bytes = true ->
-  forall (B : list (block name bytes)) f qs, (List.length B <= f)%nat ->
-  oof _ _ _ (snd (run_queries name ent bytes name_eqb decode ent_bases is_empty empty_bytes f (init name ent bytes B) qs)) = false.
+  forall (via : bool) (B : list (block name bytes)) f qs, (List.length B <= f)%nat ->
+  oof _ _ _ (snd (run_queries name ent bytes name_eqb decode ent_bases is_empty empty_bytes via f (init name ent bytes B) qs)) = false.
 Proof. exact base_lookups_terminate. Qed.
